@@ -183,10 +183,14 @@ def run_c06(pid, spec, tier, seed, replay=None):
 
 def run_c17(pid, spec, tier, seed, replay=None):
     """C17: single-tunnel identity observations (TunnelMon) plus RPCs spread over several reverse tunnels (RegistryMon)"""
-    res = run(pid, dict(spec, runner=None), tier, seed, replay)
     if replay:
-        return res
-    r2 = run_registry(pid, spec, tier, seed, None)
+        return run(pid, dict(spec, runner=None), tier, seed, replay)
+    import concurrent.futures as cf
+    orch.build_harness()
+    with cf.ThreadPoolExecutor(max_workers=2) as ex:
+        f1 = ex.submit(run, pid, dict(spec, runner=None), tier, seed, None)
+        f2 = ex.submit(run_registry, pid, spec, tier, seed, None)
+        res, r2 = f1.result(), f2.result()
     res["violations"] += r2["violations"]
     res["crashes"] += r2["crashes"]
     for k in ("states", "transitions", "traces_validated_against_impl", "evaluations", "distinct_nontrivial"):
